@@ -365,14 +365,29 @@ func TestVerifC12ClientProbeOrder(t *testing.T) {
 		writeGroup := map[string]bool{}
 		var dirLabels []string
 		var groups []nearmd5.Group
-		switch plan := rapid.SampledFrom([]string{"", "", "", "", "", "", "", "", "", "", "", "read", "read", "read", "read", "write", "write", "both", "pinned", "pinned"}).Draw(t, "directed"); plan {
+		switch plan := rapid.SampledFrom([]string{"", "", "", "", "", "", "", "", "", "", "", "read", "read", "read", "write", "write", "both", "pinned", "pinned", "pinned-write"}).Draw(t, "directed"); plan {
 		case "":
 			hash = c12Hash(t, "hash")
 		case "pinned":
 			g := nearmd5.DrawPinned(t, "dp", mode)
 			hash = g.Hash
 			groups = append(groups, g)
-			dirLabels = append(dirLabels, "directed:precomputed-pair")
+			dirLabels = append(dirLabels, "directed:precomputed-pair-for-read-hash")
+		case "pinned-write":
+			// the block written is the 64-byte preimage of the pinned hash
+			g := nearmd5.DrawPinned(t, "dp", mode)
+			pre, ok := nearmd5.PinnedPreimage(g.Hash)
+			if !ok {
+				t.Fatalf("VERIF-INFRA: no preimage for pinned hash %s", g.Hash)
+			}
+			data = []byte(pre)
+			dhash = fmt.Sprintf("%x", md5.Sum(data))
+			if dhash != g.Hash {
+				t.Fatalf("VERIF-INFRA: md5 of the pinned preimage is %s, want %s", dhash, g.Hash)
+			}
+			hash = c12Hash(t, "hash")
+			groups = append(groups, g)
+			dirLabels = append(dirLabels, "directed:precomputed-pair-for-write-hash")
 		default:
 			hash = c12Hash(t, "hash")
 			if plan == "read" || plan == "both" {
